@@ -1,6 +1,6 @@
 //! C18 — layout that carries no meaning does not change the result.
 
-use crate::checks::c01::{Got, front_end, inputs, run_real};
+use crate::checks::c01::{Got, front_end, inputs, run_parsed};
 use crate::engine::core::*;
 use crate::engine::tape::{Tape, fnv};
 use crate::model::astgen;
@@ -98,7 +98,11 @@ fn observe(text: &str, toks: Option<&[Tok]>, input_ids: &[usize]) -> Result<Base
     let mut values = vec![];
     for &ii in input_ids {
         for imp in Impl::BOTH {
-            let v = match run_real(imp, text, None, &all[ii], 4000) {
+            let got = match imp {
+                Impl::Simple => run_parsed(&mut new_simple(), &parsed, &all[ii], 1500),
+                Impl::Basic => run_parsed(&mut new_basic(), &parsed, &all[ii], 1500),
+            };
+            let v = match got {
                 Got::Value(v) => Some(v),
                 _ => None,
             };
